@@ -155,13 +155,23 @@ def gen_case(rng, tier, i):
         info.update(fno=f / epd, scale=f, image=[0.0, 0.0, t + f], real=True, n=n)
     elif fam == 'ellipsoid-refracting-immersed':
         n = float(rng.uniform(1.3, 4.0))
+        medium_ = None
+        if rng.random() < 0.4:
+            # the image lies INSIDE a catalogue (dispersive) glass and the system is designed for and evaluated at a
+            # wavelength that is not the primary one: paths of chief and pupil rays to the reference sphere use the same index
+            g_ = L.GLASSES[int(rng.integers(len(L.GLASSES)))]
+            medium_ = {'glass': g_[0], 'ref': g_[1]}
+            n = float(L.medium_index(medium_, wl))
+            spec['wavelengths'] = [[round(float(wl + (0.08 if wl < 0.58 else -0.08)), 4), True], [wl, False]]
+            info['dispersive_nonprimary'] = True
+            info['image_in_dispersive_medium'] = True
         R = L.loguniform(rng, 5, 500)
         f = n * R / (n - 1)
         # semi-minor axis of the ellipse limits the aperture: b = R / sqrt(1 - 1/n^2) * ... use a safe fraction
         b = R / math.sqrt(1 - 1 / (n * n))
         epd = min(f / n / speed * 2, 1.6 * b * 0.6)
-        spec.update(obj_t='inf', surfaces=[dict(type='standard', radius=R, conic=-1 / (n * n), medium={'n': n}, t=f, stop=True),
-                                           dict(type='standard', radius='inf', t=0.0, medium={'n': n})],
+        spec.update(obj_t='inf', surfaces=[dict(type='standard', radius=R, conic=-1 / (n * n), medium=(medium_ or {'n': n}), t=f, stop=True),
+                                           dict(type='standard', radius='inf', t=0.0, medium=(medium_ or {'n': n}))],
                     aperture=['EPD', epd], field_type='angle', fields=[[0.0, 0, 0]])
         info.update(fno=(f / n) / epd, scale=f, image=[0.0, 0.0, f], real=True, n=n)
     elif fam == 'sphere-mirror-centre':
